@@ -1,15 +1,24 @@
 (* Property C06 — Parse -> JSON -> Parse is a lossless fixpoint.
-   PARTIAL: kernel-checked are the pieces the fixpoint rests on (the member scan
-   keeps every foreign member in order and reads reserved members as the last
-   duplicate; the writers are deterministic functions of the object; alternative
-   representations write identical bytes).  The fixpoint itself is decided on
-   every run: the implementation re-parses its own output under the same options
-   (accepted, same kind tree, byte-identical output, identical observables), an
-   independent tokenizer compares the information in output and input (type,
-   every x,y bit for bit, z/m of the declared dimensionality, child order, foreign
-   members in order), and output bytes equal the Coq writers' bytes.
-   One known finding (Circle features are rewritten in a fixed form). *)
-From GJ Require Import Base JsonConst Json JsonSpec JsonProofs.
+   PROVED on the parse / emit model, for every document whose numbers are finite,
+   every option set and every number formatter (RoundTrip.v, ParsedForm.v):
+   if Parse accepts the document tree v and returns g, then Parse of the tree
+   that the writers produce for g is accepted under the same options and returns
+   g' = norm g (g itself, a Feature having gained the default "properties"
+   member); g' writes byte-identical output; Parse of that output returns g'
+   again (a fixpoint after one step); and g' has the same kind tree, the same
+   coordinates and the same image in the predicate model, so every geometry
+   answer is identical.  The writers' bytes are the minified print of that tree
+   (C17).  Outside the theorem: the tokenizer (text <-> tree; the harness's
+   independent tokenizer supplies trees and is compared with encoding/json), and
+   strconv (the formatter prints a lexeme that reads back as the same value:
+   by construction of num_jv in the model, bit-for-bit in the stream).
+   "Lossless" (the output carries the input's information) is decided on every
+   run by the independent tokenizer comparison; kernel-checked pieces of it: the
+   member scan keeps every foreign member in order and reads reserved members as
+   the last duplicate.  One known finding (Circle features are rewritten in a
+   fixed form): a Circle is a fixpoint of the theorem too, it is the first
+   Parse that drops information. *)
+From GJ Require Import Base JsonConst Json JsonSpec JsonProofs EmitProofs RoundTrip Obj JsonExec ParsedForm.
 
 Theorem C06_reserved_members_last_duplicate : forall ms,
   k_type (scan_keys ms) = last_member s_type ms /\
@@ -25,4 +34,42 @@ Theorem C06_writers_append_only : forall (fmt : Z -> list Z) dst o,
   skipn (length dst) (append_json fmt dst o) = append_json fmt [] o.
 Proof. exact append_contract. Qed.
 
+Theorem C06_parse_json_parse_fixpoint : forall (fmt : Z -> list Z) (fuel fuel2 : nat) (o : popts) (one : Z) (v : jv) (g : gobj),
+  fin_doc v = true -> parse fuel o one v = POk g -> (gdepth g <= fuel2)%nat ->
+  let g' := norm g in
+  parse fuel2 o one (emit_jv fmt g) = POk g' /\
+  emit fmt g' = emit fmt g /\
+  emit fmt g = print_min (emit_jv fmt g) /\
+  parse fuel2 o one (emit_jv fmt g') = POk g'.
+Proof. exact parse_json_parse. Qed.
+
+Theorem C06_same_kind_and_answers : forall g, enc_tree (norm g) = enc_tree g /\ to_obj (norm g) = to_obj g.
+Proof. exact norm_same_geometry. Qed.
+
+Theorem C06_parsed_objects_are_in_parsed_form : forall fuel o one v g,
+  fin_doc v = true -> parse fuel o one v = POk g -> pf o one g.
+Proof. exact parse_pf. Qed.
+
+Theorem C06_fixpoint_of_parsed_form : forall (fmt : Z -> list Z) o one g, pf o one g ->
+  forall fuel, (gdepth g <= fuel)%nat -> parse fuel o one (emit_jv fmt g) = POk (norm g).
+Proof. exact parse_emit_fixpoint. Qed.
+
+(* non-vacuity: a Feature (with an id, without properties) around a 3-dimensional LineString is accepted;
+   its re-parsed form differs from it (the default member), and is its own re-parsed form *)
+Definition ex_num (k : Z) : jv := JNum [48 + k] (FV k).
+Definition ex_doc : jv :=
+  JObj [(key s_type, JStr s_Feature s_Feature);
+        (key [105; 100], ex_num 7);
+        (key s_geometry, JObj [(key s_type, JStr s_LineString s_LineString);
+                               (key s_coordinates, JArr [JArr [ex_num 1; ex_num 2; ex_num 3]; JArr [ex_num 4; ex_num 5; ex_num 6]])])].
+Example C06_hypotheses_hold_somewhere :
+  fin_doc ex_doc = true /\
+  exists g, parse 3 (mk_opts 0 0) 1 ex_doc = POk g /\ (gdepth g <= 3)%nat /\ norm g <> g /\ norm (norm g) = norm g.
+Proof.
+  split; [reflexivity|]. eexists. split; [vm_compute; reflexivity|]. split; [cbn; lia|]. split; [discriminate|reflexivity].
+Qed.
+
 Print Assumptions C06_reserved_members_last_duplicate.
+Print Assumptions C06_parse_json_parse_fixpoint.
+Print Assumptions C06_same_kind_and_answers.
+Print Assumptions C06_parsed_objects_are_in_parsed_form.
